@@ -599,7 +599,7 @@ class GroupModel:
                 out.flow_problems.append(why)
             node = out.reducer.node
             params = [a.arg for a in node.args.args]
-            out.facts = facts_of(node, params[0] if params else "vals")
+            out.facts = facts_of(node, params[0] if params else "vals", self._helpers(), self._bindings(out.reducer))
         elif per_group_value is not None and per_group_value[0] == "call" and len(per_group_value[2]) == 1 and not per_group_value[3] \
                 and (out.kind == "apply" and per_group_value[1] == out.reducer_term):
             why = self._gather_of(per_group_value[2][0], col_data, Lg)
@@ -612,12 +612,39 @@ class GroupModel:
                 out.reducer = it.closures[inl[0].term[1][1]]
                 node = out.reducer.node
                 params = [a.arg for a in node.args.args]
-                out.facts = facts_of(node, params[0] if params else "vals")
+                out.facts = facts_of(node, params[0] if params else "vals", self._helpers(), self._bindings(out.reducer))
                 out.flow_problems.append(f"the value recorded for a group is `{self.sh(per_group_value, 70)}`, not the aggregate function's result "
                                          f"itself (a pass-through of the group's own value would leak a None)")
             else:
                 out.flow_problems.append(f"the value recorded for a group is `{self.sh(per_group_value, 70)}`: no aggregate function applied to the "
                                          f"group's gathered values was found")
+
+    def _helpers(self):
+        """single-expression helpers a reducer may call: functions nested in the analysed function and module-level functions"""
+        out = {}
+        for q, g in self.prog.functions.items():
+            if isinstance(g.node, ast.Lambda) or not isinstance(g.node, ast.FunctionDef):
+                continue
+            if q.startswith(self.f.qualname + ".<locals>.") or (g.parent is None and g.cls is None and g.module == self.f.module):
+                out.setdefault(g.name, g.node)
+        return out
+
+    def _bindings(self, reducer):
+        """free variables of a reducer closure that a factory bound to a builtin (extreme_func(min) -> pick = min)"""
+        out = {}
+        fr = getattr(reducer, "frame", None)
+        node = getattr(reducer, "node", None)
+        if fr is None or node is None:
+            return out
+        own = {a.arg for a in node.args.args}
+        used = {n.id for n in ast.walk(node) if isinstance(n, ast.Name)} - own
+        while fr is not None:
+            for name in used:
+                t = fr.env.get(name)
+                if name not in out and t is not None and t[0] == "name" and t[1] in ("min", "max", "sum", "len", "any", "all"):
+                    out[name] = ast.Name(id=t[1], ctx=ast.Load())
+            fr = fr.parent
+        return out
 
     # ------------------------------------------------------------------ conveniences
     def builtin_outputs(self) -> Dict[str, List[Output]]:
